@@ -143,6 +143,12 @@ def work(chunk):
             _, shape, incl_src = job
             build_and_check(st, shape, dict(incl_src=incl_src), None, "shape/" + ("src" if incl_src else "nosrc"),
                             dict(space="shape", deviations="incl_src" if not incl_src else "", **{k: v for k, v in shape.items()}))
+        elif job[0] == "pair":
+            # FORD's own defaults (search on) together with a page tree of every depth, with and without graphs
+            _, shape, pages, graph = job
+            opts = dict(search=True, **(dict(graph=True) if graph else {}))
+            build_and_check(st, shape, opts, pages, "options/search+pages" + ("+graph" if graph else ""),
+                            dict(space="options", deviations="search+pages" + ("+graph" if graph else ""), **{k: v for k, v in shape.items()}))
         else:
             _, shape, bound, move = job
 
@@ -199,6 +205,10 @@ def main(tier, replay_path=None):
     else:
         for i, s in enumerate(base):
             jobs.append(("options", s, 2 if i % 3 == 2 else 1, True))
+    for s in base[:: (3 if tier == "quick" else 1)]:
+        for pages in (0, 1, 2):
+            for graph in (False, True):
+                jobs.append(("pair", s, pages, graph))
     k = core.SEED % 7
     jobs = jobs[k:] + jobs[:k]
     jobs.sort(key=lambda j: 0 if j[0] == "options" else 1)
@@ -211,7 +221,8 @@ def main(tier, replay_path=None):
         rule=("full product of cardinalities files{1,2} x modules{0,1,2} x programs{0,1,2} x procedures{0,1,2} x types{0,1,2} x abstract interfaces{0,1} x block data{0,1,2} x "
               "namelists{0,1}, each with incl_src on and off; plus 18 base shapes (incl. submodules, generic interfaces) x every option vector with <= "
               + ("1 deviation" if tier == "quick" else "1 deviation (<= 2 on every third shape), tree moved and re-checked") +
-              f" over {len(OPTION_SITES)} option sites. transitions = links resolved; distinct_nontrivial = distinct (shape, options)"),
+              f" over {len(OPTION_SITES)} option sites; plus search on x page tree depth {{0,1,2}} x graphs {{off,on}} on "
+              + ("6" if tier == "quick" else "18") + " base shapes. transitions = links resolved; distinct_nontrivial = distinct (shape, options)"),
         assumptions=[
             "project_url empty (relative mode), as the property's quantifier states",
             "graphviz `dot` is stubbed in this check (DOT/SVG link targets are C13's subject); http(s)/mailto URLs are not followed",
